@@ -283,11 +283,14 @@ type Sim struct {
 	// ReleaseLog lists, in order, every goroutine release (name@site).
 	ReleaseLog []string
 
-	statMu   sync.Mutex // only contended in the free-running race mode
-	deferred *Violation
-	taskSeq  int
-	inOnPark bool
-	Preempts int
+	// LifeLimited is set when the run has server or client nodes (whose test
+	// build panics after 120 s of life).
+	LifeLimited bool
+	statMu      sync.Mutex // only contended in the free-running race mode
+	deferred    *Violation
+	taskSeq     int
+	inOnPark    bool
+	Preempts    int
 }
 
 func (m *Sim) Fault(kind string) {
@@ -326,7 +329,7 @@ func (m *Sim) Fail(rule, site, format string, a ...interface{}) {
 // Settle runs the system to quiescence: as long as releasable goroutines are
 // parked, one of them (chosen by the Chooser) is released.
 func (m *Sim) Settle() {
-	if MaxRunLife > 0 && time.Since(m.Start) > MaxRunLife {
+	if MaxRunLife > 0 && m.LifeLimited && time.Since(m.Start) > MaxRunLife {
 		panic(fmt.Sprintf("harness: run used %v of simulated time, the test build of the repo panics after 120s of life per node", time.Since(m.Start)))
 	}
 	for {
